@@ -53,6 +53,8 @@ type crcCase struct {
 	ExplicitParser bool `json:"explicit_parser,omitempty"`
 	// Address: the form of the address given to Connect (network kinds; see cli.Scenario)
 	Address string `json:"address,omitempty"`
+	// Hooks: logging hooks are installed on the client (they observe; they change nothing)
+	Hooks bool `json:"hooks,omitempty"`
 }
 
 func validReply(c crcCase) ([]byte, error) {
@@ -135,7 +137,7 @@ func runCRC(c crcCase) harness.Result {
 		ev[1].Ms = c.PauseMs
 		rtMs = 1000
 	}
-	sc := cli.Scenario{Kind: c.Kind, Req: c.Req, Stream: stream, Events: ev, ReadTimeoutMs: rtMs, Prior: c.Prior, PriorReq: cli.PriorShapeReq(c.PriorShape), ExplicitParser: c.ExplicitParser, Address: c.Address}
+	sc := cli.Scenario{Kind: c.Kind, Req: c.Req, Stream: stream, Events: ev, ReadTimeoutMs: rtMs, Prior: c.Prior, PriorReq: cli.PriorShapeReq(c.PriorShape), ExplicitParser: c.ExplicitParser, Address: c.Address, Hooks: c.Hooks}
 	return judge(c, stream, reply, cli.Run(sc))
 }
 
@@ -269,6 +271,7 @@ func genCRC(t *rapid.T, kinds []string) crcCase {
 		c.EOF = rapid.SampledFrom([]int{0, 0, 1, 2}).Draw(t, "eof")
 	}
 	c.ExplicitParser = !cli.IsSerial(c.Kind) && rapid.IntRange(0, 2).Draw(t, "explicit_parser") == 0
+	c.Hooks = rapid.IntRange(0, 2).Draw(t, "hooks") == 0
 	if !cli.IsSerial(c.Kind) {
 		c.Address = rapid.SampledFrom(cli.Addresses).Draw(t, "address")
 	}
